@@ -1,7 +1,7 @@
 SPECIFICATION Spec
 CONSTANTS
   MaxOps = 3
-  ObjNames = {"T1", "T2", "S2", "L2", "I2"}
+  ObjNames = {"T1", "S2", "L2", "I2"}
   CfgNames = {"ap", "ah", "uh"}
 INVARIANT PrintStable
 INVARIANT PrintIsFunction
